@@ -71,13 +71,17 @@ class Scenario:
     midpull_close: tuple = ()  # (call_no, j): the consumer closes the generator while a callback delivered at a consumer
     #                            pause is inside its j-th pull from the input iterable
     verbose: int = 0           # Parallel(verbose=...): progress printing must not change behaviour (output is discarded)
+    reenter: str = ""          # oracle-only: "configure" | "start_call" | "bs": at the first occurrence of that backend call the
+    #                            same Parallel object is called AGAIN (from the same thread, inside the unfinished call)
+    warn_error: bool = False   # oracle-only: the early-exit warning of an abandoned generator is escalated to an error (-W error,
+    #                            pytest filterwarnings=error): closing must still stop dispatch and leave the object clean
     sized: bool = False        # the input of every call is an object with __len__ (and a lazy __iter__), not a bare generator:
     #                            whether the input has a length must not change what is pulled when (in the model: no field)
     probe_wait: bool = False   # evaluate Parallel._wait_retrieval() at every bytecode of completion callbacks delivered
     #                            while the caller sleeps in the retrieval loop (what the caller would see if it ran there)
 
     def oracle_only(self):
-        return bool(self.instr or self.midpull_close or self.probe_wait)
+        return bool(self.instr or self.midpull_close or self.probe_wait or self.reenter or self.warn_error)
 
     def tokens(self):
         """Flat integer encoding for the Lean driver."""
@@ -100,7 +104,7 @@ class Scenario:
                     calls=[dict(n=c.n, fail=list(c.fail), iterfail=c.iterfail, cons=list(c.cons)) for c in self.calls],
                     sched=[list(e) for e in self.sched], instr=[list(e) for e in self.instr],
                     midpull_close=list(self.midpull_close), probe_wait=self.probe_wait, verbose=self.verbose,
-                    sized=self.sized)
+                    sized=self.sized, reenter=self.reenter, warn_error=self.warn_error)
 
     @staticmethod
     def from_json(d):
@@ -110,7 +114,7 @@ class Scenario:
                         calls=tuple(Call(c["n"], tuple(c["fail"]), c["iterfail"], tuple(c["cons"])) for c in d["calls"]),
                         sched=tuple(tuple(e) for e in d["sched"]), instr=tuple(tuple(e) for e in d.get("instr", ())),
                         midpull_close=tuple(d.get("midpull_close", ())), probe_wait=bool(d.get("probe_wait", False)), verbose=int(d.get("verbose", 0)),
-                        sized=bool(d.get("sized", False)))
+                        sized=bool(d.get("sized", False)), reenter=str(d.get("reenter", "")), warn_error=bool(d.get("warn_error", False)))
 
 
 class _Sized:
@@ -200,6 +204,9 @@ class Run:
         self.idle_run = 0
         self.max_idle_with_parked = {}
         self.max_wait_same_head = {}
+        self.reentered_call = False
+        self.reenter_result = None
+        self.in_call = False
         self._wait_head, self._wait_run = None, 0
         self.exited = False
         self._in_probe = False
@@ -230,6 +237,25 @@ class Run:
                     if self.hang_at is None:
                         self.hang_at = len(self.log)
                     raise HangDetected()
+
+    def reenter_here(self, where):
+        """Scenario option `reenter`: call the same Parallel object again from inside its unfinished call."""
+        if self.sc.reenter != where or self.reentered_call or self.in_cb or self.par is None or not self.in_call:
+            return
+        self.reentered_call = True
+        import joblib
+
+        try:
+            out = self.par(joblib.delayed(int)(k) for k in (7, 8))
+            out = list(out) if not isinstance(out, list) else out
+            self.ev("reenter-accepted")
+            self.reenter_result = ("accepted", out)
+        except RuntimeError:
+            self.ev("reenter-rejected")
+            self.reenter_result = ("rejected",)
+        except BaseException as e:  # noqa: BLE001
+            self.ev("reenter-raised " + type(e).__name__)
+            self.reenter_result = ("raised", type(e).__name__)
 
     def deliver(self, k):
         func, cb, ids, call_no = self.parked.pop(k)
@@ -264,11 +290,13 @@ class Run:
             def configure(self, n_jobs=1, parallel=None, **kw):
                 self.parallel = parallel
                 run.ev("configure")
+                run.reenter_here("configure")
                 run.hook("configure")
                 return sc.nj
 
             def start_call(self):
                 run.ev("start_call")
+                run.reenter_here("start_call")
 
             def stop_call(self):
                 run.ev("stop_call")
@@ -279,6 +307,7 @@ class Run:
             def compute_batch_size(self):
                 v = sc.bs[min(run.bs_i, len(sc.bs) - 1)]
                 run.bs_i += 1
+                run.reenter_here("bs")
                 run.hook("bs")
                 return v
 
@@ -322,7 +351,10 @@ class Run:
                         run.cb_pulls_at_pause += 1
                         if run.cb_pulls_at_pause == sc.midpull_close[1] and run.cur_gen is not None:
                             run.ev("close-during-pull")
-                            run.cur_gen.close()
+                            try:
+                                run.cur_gen.close()
+                            except Warning:
+                                pass  # warn_error: the escalated early-exit warning
                             run.ev("closed")
                             run.midpull_closed = True
                     run.pulled_by_call.setdefault(call_no, []).append(base + i)
@@ -346,6 +378,8 @@ class Run:
         try:
             with warnings.catch_warnings():
                 warnings.simplefilter("ignore")
+                if sc.warn_error:
+                    warnings.filterwarnings("error", message=".*adjusting the input task iterator.*")
                 be = Ctl(nesting_level=0)
                 kw = {}
                 if sc.timeout >= 0:
@@ -455,7 +489,11 @@ class Run:
     def run_call(self, par, cno, base, call, src):
         sc = self.sc
         try:
-            out = par(_Sized(src(cno, base, call), call.n) if sc.sized else src(cno, base, call))
+            self.in_call = True
+            try:
+                out = par(_Sized(src(cno, base, call), call.n) if sc.sized else src(cno, base, call))
+            finally:
+                self.in_call = False
         except HangDetected:
             raise
         except BaseException as e:  # noqa: BLE001
@@ -484,7 +522,10 @@ class Run:
                     self.ev(f"yield {v}")
                     got.append(v)
                 elif op == 2:
-                    g.close()
+                    try:
+                        g.close()
+                    except Warning:
+                        self.ev("close-warned")  # warn_error: the early-exit warning, raised as an exception
                     self.ev("closed")
                     closed = True
                     break
@@ -497,7 +538,10 @@ class Run:
                     if wr() is not None:
                         # harness artefact: callbacks run on the caller's stack here, so a traceback kept by joblib
                         # (iterator error) can pin the frame of Parallel.__call__ and with it the generator
-                        wr().close()
+                        try:
+                            wr().close()
+                        except Warning:
+                            self.ev("close-warned")
                     self.ev("dropped")
                     closed = True
                     break
